@@ -11,6 +11,7 @@
 #include <string.h>
 
 size_t verif_j, verif_k;
+int verif_step_dn;
 
 /* kernels by contract (discharged by C01.k.wday) */
 static echs_wday_t ymd_get_wday(unsigned int y, unsigned int m, unsigned int d)
@@ -32,7 +33,8 @@ __CPROVER_ensures(__CPROVER_return_value == (unsigned int)S_MDAYS(y, m));
 echs_wday_t echs_scale_wday(echs_scale_t s, unsigned int y, unsigned int m, unsigned int d)
 __CPROVER_requires(s == SCALE_GREGORIAN && 1U <= m && m <= 12U && 1U <= d && d <= 31U)
 __CPROVER_assigns()
-__CPROVER_ensures(1U <= (unsigned)__CPROVER_return_value && (unsigned)__CPROVER_return_value <= 7U);
+__CPROVER_ensures(1U <= (unsigned)__CPROVER_return_value && (unsigned)__CPROVER_return_value <= 7U)
+__CPROVER_ensures((int)__CPROVER_return_value == S_WDAY(y, m, d));
 echs_instant_t echs_instant_rescale(echs_instant_t i, echs_scale_t tgt)
 __CPROVER_requires(tgt == SCALE_GREGORIAN)
 __CPROVER_assigns()
